@@ -342,7 +342,26 @@ def r6_pointer_index(chk: Check) -> None:
     g = cfg_of(fn)
     subs = [x for x in walk_body(fn.node) if isinstance(x, ast.Subscript) and isinstance(x.slice, ast.Call) and isinstance(x.slice.func, ast.Name) and x.slice.func.id == "int" and x.slice.args]
     if not subs:
-        chk.undecided("C10.R6", fn, "list index conversion", "`<list>[int(token)]` not found", fn.loc())
+        # the conversion may have moved into a tokenising helper - then it happens BEFORE the container kind is known
+        early = []
+        for c in body_calls(fn):
+            r = P.resolve_call(fn, c)
+            if r and r[0] == "func":
+                callee = r[1]
+                if any("split('/')" in unparse(x, 200) for x in ast.walk(callee.node) if isinstance(x, ast.Call)):  # type: ignore[union-attr]
+                    early += [(callee, x) for x in ast.walk(callee.node) if isinstance(x, ast.Call) and isinstance(x.func, ast.Name) and x.func.id == "int"]  # type: ignore[union-attr]
+        loops_ = [l for l in walk_body(fn.node) if isinstance(l, ast.For) and isinstance(l.target, ast.Name)]
+        tokv = loops_[0].target.id if loops_ else None
+        bare_lookup = [c for c in body_calls(fn) if last_attr(c) == "get" and c.args and isinstance(c.args[0], ast.Name) and c.args[0].id == tokv]
+        if early and not bare_lookup:
+            chk.undecided("C10.R6", fn, "a reference token becomes an int only where it indexes a LIST", "tokens are converted early, and the mapping lookup was not recognised", fn.loc())
+        elif early:
+            callee, x = early[0]
+            chk.violation("C10.R6", fn, "a reference token becomes an int only where it indexes a LIST",
+                          f"`{unparse(x, 40)}` in {callee.name} converts digit-only tokens while the pointer is split, i.e. before resolve_pointer knows whether the current container is an array or an object: an OBJECT key such as `\"42\"` / `\"0\"` (maps keyed by numeric ids) is then looked up as the int 42 and never found - `$response.body#/items/1001/sku` becomes UNRESOLVABLE and a generated value is sent instead of the linked one",
+                          fn.loc())
+        else:
+            chk.undecided("C10.R6", fn, "list index conversion", "`<list>[int(token)]` not found", fn.loc())
     for x in subs:
         tok = unparse(x.slice.args[0])
         facts = known_conditions(g, g.stmt_nodes_containing(x))
